@@ -175,6 +175,26 @@ def main():
             pt.generate_loopy(junk_keep[0])
         except Exception:  # noqa: BLE001
             pass
+        # ... including graphs that went through both code generators and were then discarded (whatever a generator
+        # remembers about a dead graph must not leak into a later one)
+        import gc
+        from vf import pyexec
+        specs = [("ij,jk->ik", [(3, 3), (3, 3)]), ("ij,kj->ik", [(3, 3), (3, 3)]), ("ij->ji", [(3, 3)]), ("ij,ij->i", [(3, 3), (3, 3)]),
+                 ("ji,jk->ik", [(3, 3), (3, 3)]), ("ij,jk->ki", [(3, 3), (3, 3)]), ("ij,ik->jk", [(3, 3), (3, 3)]), ("ii->i", [(3, 3)]),
+                 ("ij,j->i", [(3, 3), (3,)]), ("i,i->", [(3,), (3,)]), ("ij->j", [(3, 3)]), ("ij,jk,lk->il", [(3, 3), (3, 3), (3, 3)])]
+        for i in range(req["junk"] * 3):
+            k = i % len(specs)
+            outs_ = {}
+            for io, (sp, shapes) in enumerate(specs[k:] + specs[:k]):
+                args_ = [pt.make_placeholder(f"j{io}_{j}", sh, np.float64) for j, sh in enumerate(shapes)]
+                outs_[f"w{io}"] = pt.einsum(sp, *args_)
+            try:
+                pyexec.generate(pt.make_dict_of_named_arrays(outs_))
+            except Exception:  # noqa: BLE001
+                pass
+            del outs_, args_
+            if i % 3 == 0:
+                gc.collect()
     if any(p["kind"] == "dist" for p in progs):
         from vf import distrun
         distrun.install_fake_mpi()
